@@ -30,7 +30,20 @@ type AgentCase struct {
 
 func genAgent(t *rapid.T) AgentCase {
 	w := rapid.IntRange(2, 6).Draw(t, "w")
-	c := AgentCase{W: w, FileK: rapid.IntRange(0, w+1).Draw(t, "fileK"), BaseK: rapid.IntRange(-1, w+1).Draw(t, "baseK")}
+	c := AgentCase{W: w}
+	switch rapid.SampledFrom([]string{"file", "base", "base", "both", "base-without-limit", "none"}).Draw(t, "where") {
+	case "file":
+		c.FileK = rapid.IntRange(1, w+1).Draw(t, "fileK")
+	case "base":
+		c.BaseK = rapid.IntRange(1, w+1).Draw(t, "baseK")
+	case "both":
+		c.FileK, c.BaseK = rapid.IntRange(1, w+1).Draw(t, "fileK"), rapid.IntRange(1, w+1).Draw(t, "baseK")
+	case "base-without-limit":
+		c.BaseK = -1
+		if rapid.Bool().Draw(t, "fileToo") {
+			c.FileK = rapid.IntRange(1, w+1).Draw(t, "fileK")
+		}
+	}
 	return c
 }
 
